@@ -5,6 +5,9 @@
 // Also every two-step history (hash, change members in place, hash again): the hash must follow the members.
 #include "../engine/json.hpp"
 #include <cstdint>
+#include <cstdlib>
+#include <cstring>
+#include <new>
 #include <limits>
 #include "../engine/mc.hpp"
 
@@ -34,7 +37,7 @@ struct V3 : nitro::lang::tuple_operators<V3>
     }
     std::string str() const
     {
-        return "(" + std::to_string(a) + ",'" + b + "'," + (std::signbit(c) ? "-" : "+") + std::to_string(std::fabs(c)) + ")";
+        return "(" + std::to_string(a) + ",'" + (b.size() > 12 ? b.substr(0, 6) + "...(" + std::to_string(b.size()) + " bytes)" : b) + "'," + (std::signbit(c) ? "-" : "+") + std::to_string(std::fabs(c)) + ")";
     }
 };
 struct P2 : nitro::lang::tuple_operators<P2>
@@ -119,7 +122,10 @@ static std::vector<V3> grid_v3(bool big)
 {
     std::vector<V3> g;
     std::vector<int> as = { -1, 0, 1 };
-    std::vector<std::string> bs = { "", "a", "b" };
+    // strings: short ones; one a prefix of the other with length differences of 137 and 256; first bytes more than 127 apart;
+    // equal up to an embedded NUL and different behind it
+    std::vector<std::string> bs = { "", "a", "b", "a" + std::string(137, 'x'), "a" + std::string(256, 'x'), "\xc3\x84rger", "Apfel",
+                                    std::string("ab\0cd", 5), std::string("ab\0ce", 5) };
     std::vector<double> cs = { -0.0, 0.0, 1.0 };
     if (big)
     {
@@ -509,6 +515,25 @@ static void check_nested_positions(std::vector<Fail>& f, mc::Report& rep)
                 for (size_t j = 1; j < distinct.size(); j += 5)
                     tg.emplace_back(distinct[i], distinct[j]);
             check_positions("tuple<string,string>(sizes)", tg, 2, [](const T& x, const T& y) { return diff2(get<0>(x), get<0>(y), get<1>(x), get<1>(y)); }, f, rep);
+        }
+        // long double: equal values whose storage had different previous contents (the type has padding bytes on x86)
+        {
+            alignas(16) unsigned char m1[sizeof(long double)], m2[sizeof(long double)];
+            std::memset(m1, 0xAA, sizeof m1);
+            std::memset(m2, 0x55, sizeof m2);
+            long double* pa = new (m1) long double;
+            long double* pb = new (m2) long double;
+            for (const char* txt : { "1.25", "0", "-0", "3.3621e-4932", "1e4000" })
+            {
+                *pa = std::strtold(txt, nullptr);
+                *pb = std::strtold(txt, nullptr);
+                rep.count("executions");
+                if (*pa == *pb && nitro::lang::hash(*pa) != nitro::lang::hash(*pb))
+                    f.push_back({ "equal-values-hash-differently", std::string("long double ") + txt + " stored in memory with different previous contents" });
+                auto ta = std::make_tuple(*pa, 1), tb = std::make_tuple(*pb, 1);
+                if (ta == tb && nitro::lang::hash(ta) != nitro::lang::hash(tb))
+                    f.push_back({ "equal-values-hash-differently", std::string("tuple<long double,int> with ") + txt });
+            }
         }
         // integers of several widths at their extremes
         {
